@@ -226,7 +226,7 @@ func init() {
 		Hist: func(ctx *Ctx) *HistCfg {
 			return &HistCfg{Prop: "C19", Cases: tierN(ctx, 120, 1200), MinSteps: 6, MaxSteps: 18, FreshPct: 5,
 				W:       Weights{"damage": 30, "write": 10, "add-all": 8, "commit": 10, "branch": 3, "switch": 2, "reset": 2, "config": 2, "branch-rename": 1},
-				Oracles: []HistOracle{orC19}, NoDerive: true}
+				Oracles: []HistOracle{orC19}, NoDerive: true, WorldAlways: true}
 		},
 		// no-wrong-data for the tree reader: whatever `walkTree` returns for a (damaged) tree stored under its own
 		// name, every leaf it reports — name and id — must stand in the file as `name NUL id` (a reader that pads a
